@@ -686,7 +686,25 @@ def s1(ctx):
         if lhs is None or lhs.kind != 'MemberExpr' or lhs.name not in payload or not _base_is(lhs, 'Node'):
             continue
         if not _index_reads(rhs, tvar):
-            foreign.append(n_)
+            # `if (t[k].is_none()) field = py::none();` with k the field's own position says the
+            # same as `field = t[k]` on that outcome
+            from .common import if_outcome
+            r_ = strip_casts(rhs)
+            is_none_value = r_ is not None and ((r_.kind in CTOR_KINDS and 'none' in (r_.type or '')) or
+                                                (r_.kind in CALL_KINDS and r_.callee_name() == 'none'))
+            same = False
+            if is_none_value:
+                par_ = enclosing_map(rf.body)
+                for anc in ancestors(n_, par_):
+                    if anc.kind != 'IfStmt' or (anc.x or {}).get('hasInit') or (anc.x or {}).get('hasVar'):
+                        continue
+                    base, outcome = if_outcome(anc, n_)
+                    if outcome is True and base is not None and base.kind == 'CXXMemberCallExpr' and \
+                            base.callee_name() == 'is_none' and \
+                            _index_reads(base.call_base(), tvar) == [pos_of.get(lhs.name)]:
+                        same = True
+            if not same:
+                foreign.append(n_)
     ctx.check('FromPickleable/payload-only-from-state', not foreign,
               'FromPickleable assigns the payload fields (%s) only from their state positions'
               % ', '.join(sorted(payload)),
